@@ -22,6 +22,14 @@ def generate(G):
     dense([1, 1], 1, 1, "Relu", "Mse", 2, "thorough", stubs=("powf",))
     dense([1, 1], 1, 1, "None", "Bilinear", 3, "thorough")
 
+    # through the Model struct itself: bounded attempt (DESIGN.md closing note); 'experimental' until shown to finish
+    for inp_shape, i, o, cost, iters in [([1, 1], 1, 1, "Bilinear", 1), ([1, 1], 1, 1, "Bilinear", 2), ([2, 2], 2, 1, "Mse", 1)]:
+        G.ob("c14_model_%s_%dto%d_%s_i%d" % (G.sname(inp_shape), i, o, cost.lower(), iters), "C14", "model_loop",
+             "c14::model_loop(s, %s, %d, %d, c14::Cost::%s, %d)" % (G.rs(inp_shape), i, o, cost, iters), unwind=8, tier="experimental",
+             heavy=True, stubs=("powf",) if cost == "Mse" else (),
+             skeleton={"stack": "Model[Dense(%d->%d)]" % (i, o), "input": inp_shape, "cost": cost, "iterations": iters,
+                       "sequence": "Model::forward -> Model::backward -> Model::update"}, domains="D2; lr in {0,0.5,1,2}")
+
     def conv(inp, filt, stride, iters, tier):
         id = "c14_conv_%s_%s_i%d" % (G.sname(inp), G.sname(filt), iters)
         G.ob(id, "C14", "conv_loop", "c14::conv_loop(s, %s, (%d, %d, %d, %d), (%d, %d), %d)" % (
